@@ -1,5 +1,6 @@
 import FP.Model.NodeExpandModes
 import FP.Proofs.NodeExpandKFD
+import FP.Model.Enc.KFDCWitness
 /-!
 # FP.Proofs.NodeExpandModes — node mode = edge mode on the explicit expansion, for `kPathCover`,
 `kLeastAbsErrors`, `kMinPathError`
@@ -371,13 +372,9 @@ theorem nxm_cover_agree (inp : NodeModeInput) (hc : Closed inp.nf.ng.g) :
   nxm_agree { inp with nf := { inp.nf with ng := coverNG inp.nf.ng } } hc
     (fun p hp => by simp [coverNG] at hp) false
 
-/-- **kPathCover(cover_type="node")**: equality with the explicit expansion, provided the two readings of the
-length attribute (`coverLengths`: default 1 on attribute-less edge copies; `expandLengths`: 0) agree on every
-edge of every expanded constraint, or `subpath_constraints_coverage_length` is not set -/
+/-- **kPathCover(cover_type="node")**: equality with the explicit expansion (since fix 65014a7 the class hands
+`length_attr` to the node expansion, so the length attribute is read as on the expansion of the property text) -/
 theorem nxm_kcover_node_eq (inp : NodeModeInput) (lp : LP) (hc : Closed inp.nf.ng.g)
-    (hlen : inp.nf.coverageLength = none ∨
-      ∀ con ∈ specConstraints inp.nf.constraints, ∀ e ∈ con,
-        lenAt (coverLengths inp.nf.ng) e = lenAt (expandLengths inp.nf.ng) e)
     (h : kcoverNodeLP inp = .ok lp) : lp = kcoverLP (expandCoverInput inp) := by
   unfold kcoverNodeLP at h
   cases hi : kcoverNodeInternal inp with
@@ -387,7 +384,7 @@ theorem nxm_kcover_node_eq (inp : NodeModeInput) (lp : LP) (hc : Closed inp.nf.n
     have hlp : kcoverLP fi = lp := Except.ok.inj h
     rw [← hlp]
     unfold kcoverNodeInternal at hi
-    cases ht : nodeTranslateGen inp (coverNG inp.nf.ng) (coverLengths inp.nf.ng) false with
+    cases ht : nodeTranslateGen inp (coverNG inp.nf.ng) (expandLengths inp.nf.ng) false with
     | error e => rw [ht] at hi; exact nomatch hi
     | ok ei0 =>
       rw [ht] at hi
@@ -397,17 +394,26 @@ theorem nxm_kcover_node_eq (inp : NodeModeInput) (lp : LP) (hc : Closed inp.nf.n
       · have h0 := (Except.ok.inj hi).symm
         have h2 := nxm_translate_ok ht
         subst h0 h2
-        rw [← nxm_kcoverLP_congr _ _ (nxm_cover_agree inp hc)]
-        -- only the length attribute differs
-        rw [nxm_kcoverLP_eq, nxm_kcoverLP_eq]
-        have henc := nxm_encodePaths_len_congr
-          (nxmTranslated inp (coverNG inp.nf.ng) (coverLengths inp.nf.ng) false).fi.st
-          (nxmTranslated inp (coverNG inp.nf.ng) (coverLengths inp.nf.ng) false).fi.cfg
-          (expandLengths inp.nf.ng) rfl hlen
-        rw [henc]
-        rfl
+        exact nxm_kcoverLP_congr _ _ (nxm_cover_agree inp hc)
 
-/-! ### when the two readings of the length attribute agree -/
+/-- the LP the class built before fix 65014a7 (length attribute read as `coverLengths`) equals the present one
+exactly under the former hypothesis: the two readings agree on the edges of the expanded constraints, or
+`subpath_constraints_coverage_length` is not set -/
+theorem nxm_kcover_former_eq (inp : NodeModeInput)
+    (hlen : inp.nf.coverageLength = none ∨
+      ∀ con ∈ specConstraints inp.nf.constraints, ∀ e ∈ con,
+        lenAt (coverLengths inp.nf.ng) e = lenAt (expandLengths inp.nf.ng) e) :
+    kcoverLP (nxmTranslated inp (coverNG inp.nf.ng) (coverLengths inp.nf.ng) false).fi
+      = kcoverLP (nxmTranslated inp (coverNG inp.nf.ng) (expandLengths inp.nf.ng) false).fi := by
+  rw [nxm_kcoverLP_eq, nxm_kcoverLP_eq]
+  have henc := nxm_encodePaths_len_congr
+    (nxmTranslated inp (coverNG inp.nf.ng) (coverLengths inp.nf.ng) false).fi.st
+    (nxmTranslated inp (coverNG inp.nf.ng) (coverLengths inp.nf.ng) false).fi.cfg
+    (expandLengths inp.nf.ng) rfl hlen
+  rw [henc]
+  rfl
+
+/-! ### when the present and the former reading of the length attribute agree -/
 
 theorem nxm_lookup_nodeEdge_edgepart (l : List Edge) (f : Edge → Rat) (v : Node) :
     (l.map fun e => (edgeEdge e, f e)).lookup (nodeEdge v) = none := by
@@ -454,6 +460,22 @@ theorem nxm_lengths_eq_of_all (ng : NodeGraph)
   cases hl : ng.edgeLen.lookup e with
   | none => rw [hl] at this; cases this
   | some q => rfl
+
+/-- a satisfying assignment passes the boolean row check (used to show on a concrete LP that an assignment does
+*not* satisfy it) -/
+theorem nxm_rowOk_of_sat (a : Asg) (lp : LP) (h : Sat a lp) : lp.rows.all (rowOk a) = true := by
+  apply List.all_eq_true.2
+  intro r hr
+  obtain ⟨h1, h2⟩ := h.2 r hr
+  unfold rowOk
+  rw [Bool.and_eq_true]
+  constructor
+  · cases hl : r.lo with
+    | none => rfl
+    | some l => simpa using h1 l hl
+  · cases hh : r.hi with
+    | none => rfl
+    | some u => simpa using h2 u hh
 
 end NX
 end FP
